@@ -19,7 +19,7 @@ func init() {
 	register(&Rule{Name: "FWD-ERR-PROMPT", Floor: 1,
 		Doc: "in the stream forwarder the backend's error is returned without first joining the inbound pump (the pump blocks on the client; waiting for it withholds the backend's status until the client acts)",
 		Run: ruleFwdErrPrompt})
-	register(&Rule{Name: "SLICE-CAP", Floor: 3,
+	register(&Rule{Name: "SLICE-CAP", Floor: 2,
 		Doc: "in request-reachable code a byte slice is re-sliced to a constant length only where its capacity (or length) is known to cover it: made with that capacity, an array of that size, or guarded by a cap test",
 		Run: ruleSliceCap})
 	register(&Rule{Name: "TIMEOUT-DIGITS", Floor: 2,
@@ -641,74 +641,82 @@ func (p *Program) sliceCapVar(r *Run, fn *ssa.Function, sl *ssa.Slice, site, n *
 		v = p.stripConvAll(v)
 		return v == h || p.sameValue(v, h)
 	}
-	// establishing facts: on the path the operand was (re)made with capacity >= h, or cap(operand) < h was excluded, or len(operand) < h ... no
-	isPhiOf := func(v ssa.Value) []ssa.Value {
-		if ph, ok := v.(*ssa.Phi); ok {
-			return ph.Edges
+	// establishing facts, per value the operand may be: it was (re)made with capacity >= h, or `cap(v) < h` was
+	// excluded where that value is selected; a transparent helper (ensureCap(b, n)) is judged on its returns with
+	// its parameter standing for the argument
+	capExcluded := func(facts []guardFact, v ssa.Value, sameH func(ssa.Value) bool) bool {
+		for _, g := range facts {
+			x, y, op, ok := g.cmp()
+			if !ok {
+				continue
+			}
+			cc, ok := x.(*ssa.Call)
+			if !ok || calleeName(cc) != "builtin.cap" {
+				continue
+			}
+			if cc.Call.Args[0] != v && !p.sameValue(cc.Call.Args[0], v) {
+				continue
+			}
+			if sameH(y) && op == token.GEQ {
+				return true
+			}
 		}
-		return []ssa.Value{v}
+		return false
 	}
-	okAll := true
-	for _, src := range isPhiOf(sl.X) {
-		good := false
+	var covered func(v ssa.Value, facts []guardFact, sameH func(ssa.Value) bool, depth int) bool
+	covered = func(v ssa.Value, facts []guardFact, sameH func(ssa.Value) bool, depth int) bool {
+		if depth > 6 {
+			return false
+		}
+		switch x := v.(type) {
+		case *ssa.Phi:
+			for i, e := range x.Edges {
+				pred := x.Block().Preds[i]
+				if !covered(e, append(append([]guardFact{}, guardsOf(pred)...), edgeFact(pred, x.Block())...), sameH, depth+1) {
+					return false
+				}
+			}
+			return len(x.Edges) > 0
+		case *ssa.Call:
+			if callee := x.Call.StaticCallee(); callee != nil && !x.Call.IsInvoke() && p.isTransparent(callee) && callee.Signature.Results().Len() == 1 {
+				inner := func(w ssa.Value) bool {
+					w = p.stripConvAll(w)
+					if par, ok := w.(*ssa.Parameter); ok && par.Parent() == callee {
+						if a := argAt(x, paramIndex(par)); a != nil {
+							return sameH(a)
+						}
+					}
+					return false
+				}
+				all, nret := true, 0
+				eachInstr(callee, func(in ssa.Instruction) {
+					if rt, ok := in.(*ssa.Return); ok {
+						nret++
+						if !covered(rt.Results[0], guardsOf(rt.Block()), inner, depth+1) {
+							all = false
+						}
+					}
+				})
+				return all && nret > 0
+			}
+		}
 		// (a) made with enough capacity
-		for _, o := range p.origins(src, originOpts{}) {
+		for _, o := range p.origins(v, originOpts{local: true}) {
 			if ms, ok := o.(*ssa.MakeSlice); ok {
 				if sameH(ms.Cap) {
-					good = true
+					return true
 				}
 				if c, ok := ms.Cap.(*ssa.Call); ok {
 					if callee := staticCallee(c); callee != nil && funcName(callee) == "larking.io/larking.growcap" && len(c.Call.Args) == 2 && sameH(c.Call.Args[1]) {
-						good = true
+						return true
 					}
 				}
 			}
 		}
-		// (b) a cap test of that very value excluded cap < h at the slice
-		if !good {
-			for _, g := range guardsOf(sl.Block()) {
-				bo, ok := g.Cond.(*ssa.BinOp)
-				if !ok {
-					continue
-				}
-				cc, ok := bo.X.(*ssa.Call)
-				if !ok || calleeName(cc) != "builtin.cap" {
-					continue
-				}
-				if cc.Call.Args[0] != src && !p.sameValue(cc.Call.Args[0], src) {
-					continue
-				}
-				if sameH(bo.Y) && ((bo.Op == token.LSS && !g.True) || (bo.Op == token.GEQ && g.True)) {
-					good = true
-				}
-			}
-			// the phi edge itself comes from the false edge of `cap(src) < h`
-			if ph, ok := sl.X.(*ssa.Phi); ok {
-				for i, e := range ph.Edges {
-					if e != src {
-						continue
-					}
-					pred := ph.Block().Preds[i]
-					for _, g := range append(guardsOf(pred), edgeFact(pred, ph.Block())...) {
-						bo, ok := g.Cond.(*ssa.BinOp)
-						if !ok {
-							continue
-						}
-						cc, ok := bo.X.(*ssa.Call)
-						if !ok || calleeName(cc) != "builtin.cap" || (cc.Call.Args[0] != src && !p.sameValue(cc.Call.Args[0], src)) {
-							continue
-						}
-						if sameH(bo.Y) && ((bo.Op == token.LSS && !g.True) || (bo.Op == token.GEQ && g.True)) {
-							good = true
-						}
-					}
-				}
-			}
-		}
-		if !good {
-			okAll = false
-		}
+		// (b) a cap test of that very value excluded cap < h where it is selected
+		return capExcluded(facts, v, sameH)
 	}
+	okAll := covered(sl.X, guardsOf(sl.Block()), sameH, 0)
 	r.check(okAll, key, sl.Pos(), "the buffer is extended to a bound that its capacity is known to cover (made with that capacity, or a cap test of that same bound)",
 		"the buffer is extended with b[len(b):h] although its capacity is not known to cover h: the capacity test / allocation uses another quantity than the bound that is sliced to (slice bounds out of range for sizes within that difference)")
 }
@@ -1123,7 +1131,7 @@ func ruleWebTrailerFrame(r *Run) {
 	// the range key over the header map
 	rangeKey := func(fn *ssa.Function) ssa.Value {
 		var key ssa.Value
-		eachInstr(fn, func(in ssa.Instruction) {
+		p.eachInstrR(fn, func(in ssa.Instruction) {
 			rg, ok := in.(*ssa.Range)
 			if !ok || !isHeaderType(rg.X.Type()) {
 				return
@@ -1147,7 +1155,7 @@ func ruleWebTrailerFrame(r *Run) {
 	}
 	// (a) the seen test uses the raw key
 	raw, n := true, 0
-	eachInstr(wt, func(in ssa.Instruction) {
+	p.eachInstrR(wt, func(in ssa.Instruction) {
 		lk, ok := in.(*ssa.Lookup)
 		if !ok {
 			return
@@ -1165,7 +1173,7 @@ func ruleWebTrailerFrame(r *Run) {
 		"the already-sent test is made on a transformed key (prefix stripped / case changed): a trailer whose name equals a header the handler also sent is dropped from the gRPC-web trailer frame")
 	// (b) the frame key is the raw key with the trailer prefix trimmed and lower-cased
 	var upd *ssa.MapUpdate
-	eachInstr(wt, func(in ssa.Instruction) {
+	p.eachInstrR(wt, func(in ssa.Instruction) {
 		if mu, ok := in.(*ssa.MapUpdate); ok && isHeaderType(mu.Map.Type()) {
 			upd = mu
 		}
@@ -1201,7 +1209,7 @@ func ruleWebTrailerFrame(r *Run) {
 	// (c) seeHeaders does not record prefixed keys as sent
 	sk := rangeKey(sh)
 	var su *ssa.MapUpdate
-	eachInstr(sh, func(in ssa.Instruction) {
+	p.eachInstrR(sh, func(in ssa.Instruction) {
 		if mu, ok := in.(*ssa.MapUpdate); ok {
 			su = mu
 		}
